@@ -177,22 +177,20 @@ theorem init_eq_spec (root basename : String) (parts : List String) :
   · simp [hr, fnfe]
   · generalize (splitDots basename.toList).dropLast = comps
     have hr' : hasDot root = false := by simpa using hr
-    simp only [hr', Bool.false_eq_true, if_false]
+    -- one normal form per shape of the component list: every primitive unfolded, every numeral decided, then `simp`
     match comps with
-    | [] => simp [fnfe]
-    | [a] => simp [fnfe]
-    | [a, b] => simp [fnfe]
+    | [] => simp [hr', fnfe, Py.unpack2, Py.unpack3, Py.unpack4, Py.index]
+    | [a] => simp [hr', fnfe, Py.unpack2, Py.unpack3, Py.unpack4, Py.index]
+    | [a, b] => simp [hr', fnfe, Py.unpack2, Py.unpack3, Py.unpack4, Py.index]
     | [n, ma, mi] =>
-      simp only [List.map_cons, List.map_nil, List.length_cons, List.length_nil, Py.unpack3, pure_eq_ok, ok_bind,
-        parse_decimal_comp]
-      cases decimal ma <;> cases decimal mi <;> by_cases hs : parts.any hasDot = true <;>
-        simp [fnfe, tryExcept_ok, tryExcept_valueError, hs, loop, Py.strJoin, joinDots]
+      cases hma : decimal ma <;> cases hmi : decimal mi <;> by_cases hs : parts.any hasDot = true <;>
+        simp [hr', Py.unpack2, Py.unpack3, Py.unpack4, Py.index, parse_decimal_comp, hma, hmi, fnfe, tryExcept_ok, tryExcept_valueError,
+          hs, loop, Py.strJoin, joinDots]
     | [p, n, ma, mi] =>
-      simp only [List.map_cons, List.map_nil, List.length_cons, List.length_nil, Py.unpack4, pure_eq_ok, ok_bind,
-        parse_decimal_comp, Option.isSome_some, Option.get!_some]
-      cases decimal p <;> cases decimal ma <;> cases decimal mi <;> by_cases hs : parts.any hasDot = true <;>
-        simp [fnfe, tryExcept_ok, tryExcept_valueError, hs, loop, Py.strJoin, joinDots]
-    | a :: b :: c :: d :: f :: r => simp [fnfe]
+      cases hp : decimal p <;> cases hma : decimal ma <;> cases hmi : decimal mi <;> by_cases hs : parts.any hasDot = true <;>
+        simp [hr', Py.unpack2, Py.unpack3, Py.unpack4, Py.index, parse_decimal_comp, hp, hma, hmi, fnfe, tryExcept_ok,
+          tryExcept_valueError, hs, loop, Py.strJoin, joinDots]
+    | a :: b :: c :: d :: f :: r => simp [hr', fnfe, Py.unpack2, Py.unpack3, Py.unpack4, Py.index]
 
 /-! ### ... against the model -/
 
